@@ -896,6 +896,12 @@ func validate(res *runResult, out *Output, run int, stats map[string]int) {
 			stats["calls_cancelled"]++
 			continue
 		}
+		if ctxErr && !cancelled {
+			// the caller's own context is alive: a context error can only stem from another caller's context
+			c.fail("C18", "foreign-context-error", fmt.Sprintf("call %d, whose own context is alive, returned %v: the fate of its items depended on another caller's context", rp.ID, rp.err))
+			c.fail("C06", "error-without-failure", fmt.Sprintf("call %d returned %v although its own context is alive and no export carrying its items failed on its own", rp.ID, rp.err))
+			continue
+		}
 		if p.Cfg.Early {
 			if rp.err != nil {
 				c.fail("C06", "early-return-error", fmt.Sprintf("early_return: call %d returned %v", rp.ID, rp.err))
